@@ -22,7 +22,7 @@ var jpSiblingTableCtx string
 
 var jpEvaluators = []string{"Get", "FirstFound", "Has", "set", "modify", "GetNodes", "FirstNode"}
 
-var siblingContainers = map[string]bool{"[]any": true, "gen.Array": true, "Indexed": true, "map[string]any": true, "gen.Object": true, "Keyed": true}
+var siblingContainers = map[string]bool{"preamble": true, "[]any": true, "gen.Array": true, "Indexed": true, "map[string]any": true, "gen.Object": true, "Keyed": true}
 
 func baseCont(c string) string {
 	if i := strings.Index(c, "#"); i >= 0 {
